@@ -525,6 +525,19 @@ def params : Nat → Bytes → Option (List Param)
     | some p, some ps => some (p :: ps)
     | _, _ => none
 
+def Param.getVersion : Param → Option Nat | .version v => some v | _ => none
+def Param.getMiux : Param → Option Nat | .miux v => some v | _ => none
+def Param.getWks : Param → Option Nat | .wks v => some v | _ => none
+def Param.getLto : Param → Option Nat | .lto v => some v | _ => none
+def Param.getRw : Param → Option Nat | .rw v => some v | _ => none
+def Param.getSn : Param → Option Bytes | .sn v => some v | _ => none
+def Param.getOpt : Param → Option Nat | .opt v => some v | _ => none
+def Param.getSdreq : Param → Option (Nat × Bytes) | .sdreq t n => some (t, n) | _ => none
+def Param.getSdres : Param → Option (Nat × Nat) | .sdres t s => some (t, s) | _ => none
+def Param.getEcpk : Param → Option Bytes | .ecpk v => some v | _ => none
+def Param.getRn : Param → Option Bytes | .rn v => some v | _ => none
+
+/-- the last occurrence of a parameter wins -/
 def lastSome {α} (f : Param → Option α) (ps : List Param) : Option α :=
   ps.foldl (fun acc p => match f p with | some v => some v | none => acc) none
 
@@ -551,24 +564,24 @@ def decodeS : Bytes → Option SPdu
     | 1 =>
       if dsap = 0 ∧ ssap = 0 then
         (params info.length info).map fun ps =>
-          .pax 0 0 (lastSome (fun | .version v => some v | _ => none) ps)
-            (lastSome (fun | .miux v => some v | _ => none) ps)
-            (lastSome (fun | .wks v => some v | _ => none) ps)
-            (lastSome (fun | .lto v => some v | _ => none) ps)
-            (lastSome (fun | .opt v => some v | _ => none) ps)
+          .pax 0 0 (lastSome Param.getVersion ps)
+            (lastSome Param.getMiux ps)
+            (lastSome Param.getWks ps)
+            (lastSome Param.getLto ps)
+            (lastSome Param.getOpt ps)
       else none
     | 2 => none
     | 3 => some (.ui dsap ssap info)
     | 4 =>
       (params info.length info).map fun ps =>
-        .connect dsap ssap (128 + ((lastSome (fun | .miux v => some v | _ => none) ps).getD 0))
-          ((lastSome (fun | .rw v => some v | _ => none) ps).getD 1)
-          (lastSome (fun | .sn v => some v | _ => none) ps)
+        .connect dsap ssap (128 + ((lastSome Param.getMiux ps).getD 0))
+          ((lastSome Param.getRw ps).getD 1)
+          (lastSome Param.getSn ps)
     | 5 => some (.disc dsap ssap)
     | 6 =>
       (params info.length info).map fun ps =>
-        .cc dsap ssap (128 + ((lastSome (fun | .miux v => some v | _ => none) ps).getD 0))
-          ((lastSome (fun | .rw v => some v | _ => none) ps).getD 1)
+        .cc dsap ssap (128 + ((lastSome Param.getMiux ps).getD 0))
+          ((lastSome Param.getRw ps).getD 1)
     | 7 => match info with
       | [r] => some (.dm dsap ssap r)
       | _ => none
@@ -579,14 +592,14 @@ def decodeS : Bytes → Option SPdu
     | 9 =>
       if dsap = 1 ∧ ssap = 1 then
         (params info.length info).map fun ps =>
-          .snl 1 1 (ps.filterMap fun | .sdreq t n => some (t, n) | _ => none)
-            (ps.filterMap fun | .sdres t s => some (t, s) | _ => none)
+          .snl 1 1 (ps.filterMap Param.getSdreq)
+            (ps.filterMap Param.getSdres)
       else none
     | 10 =>
       if dsap = 0 ∧ ssap = 0 then
         (params info.length info).map fun ps =>
-          .dps 0 0 (lastSome (fun | .ecpk v => some v | _ => none) ps)
-            (lastSome (fun | .rn v => some v | _ => none) ps)
+          .dps 0 0 (lastSome Param.getEcpk ps)
+            (lastSome Param.getRn ps)
       else none
     | 12 => match info with
       | sq :: sdu => some (.info dsap ssap (sq / 16) (sq % 16) sdu)
